@@ -11,6 +11,7 @@ mod env;
 mod generated;
 mod genval;
 mod ifcheck;
+mod manual;
 #[path = "../../h_zbus/src/sched.rs"]
 #[allow(dead_code)]
 mod sched;
